@@ -117,8 +117,9 @@ def r_solver(ctx, model):
                   explanation=f"with exact rotated-frame and original-frame components supplied the shear solver does not return {key} "
                               f"(residual {short(resid, 160)}): factor 2, multiplicity, strain product or the skipped terms are wrong", key=f"{key}.exact")
         # sibling agreement: keys requested == keys read
+        # the same SET of components (how often one is listed or read - once per tensor-index permutation, once per Voigt pair - is immaterial)
         read_o = sorted(n for tag, n in log)
-        ctx.check(read_o == sorted(names_o) and sorted(rlog) == sorted(names_r), f"{key}: requested components = components the energy routine reads", model.where(f"{SHMOD}:calculate_fictitious_strain_energy"),
+        ctx.check(set(read_o) == set(names_o) and set(rlog) == set(names_r), f"{key}: requested components = components the energy routine reads", model.where(f"{SHMOD}:calculate_fictitious_strain_energy"),
                   expected=f"{len(names_o)} original + {len(names_r)} rotated", found=f"reads {len(read_o)} / {len(rlog)}",
                   explanation="the dependency list handed to the scheduler differs from what the solver reads (KeyError or a stale value)", key=f"{key}.siblings")
         # multiplicity = number of skipped target terms
@@ -189,7 +190,7 @@ def r_siblings_probe(ctx, model):
             read = []
             resolver = LoggingResolver(read)
             ev.call_def(f_en, mod, f"{SHMOD}:calculate_fictitious_strain_energy", [m, resolver, target], {})
-            a_, r_ = sorted(k.name for k in asked.items), sorted(read)
+            a_, r_ = sorted({k.name for k in asked.items}), sorted(set(read))
             if a_ != r_:
                 bad.append(f"{label}{' (target c44)' if target else ''}: asked for {len(a_)} components, reads {len(r_)}"
                            f" (only asked: {sorted(set(a_) - set(r_))[:3]}, only read: {sorted(set(r_) - set(a_))[:3]})")
